@@ -25,7 +25,7 @@ func runC02(c *mon.Ctx) {
 	nb, na := base, base.Add(2*time.Hour)
 	certFor := func(name string, serial int64) *sim.Cert { return sim.Mint(sim.K(name), nb, na, serial) }
 	kinds := []string{"sso-resp", "sso-assert", "sso-bad-resp-over-good-assertions", "logout-req", "logout-resp"}
-	signers := []string{"member", "member", "member", "untrusted", "foreign-key", "same-key-other-cert", "no-keyinfo", "no-keyinfo", "twin-member"}
+	signers := []string{"member", "member", "member", "untrusted", "foreign-key", "same-key-other-cert", "no-keyinfo", "no-keyinfo", "twin-member", "mixed-validity-store"}
 	clocks := []struct {
 		name   string
 		t      time.Time
@@ -56,7 +56,29 @@ func runC02(c *mon.Ctx) {
 		var signCert *sim.Cert // certificate embedded / implied
 		var signKey *sim.Key
 		inStore := false
+		mixedNoKI := false
 		switch sg {
+		case "mixed-validity-store":
+			// roll-over store whose other members are expired / not yet valid at every probed clock position;
+			// the signer is the member with the probed window. Without KeyInfo the store still holds several
+			// certificates, so the signature cannot be attributed and must be refused.
+			store = nil
+			old := sim.Mint(sim.K(keyNames[perm[0]]), nb.AddDate(-2, 0, 0), nb.AddDate(-1, 0, 0), 12)
+			future := sim.Mint(sim.K(keyNames[perm[1]]), na.AddDate(1, 0, 0), na.AddDate(2, 0, 0), 13)
+			cur := certFor(keyNames[perm[2]], 10)
+			switch r.IntN(4) {
+			case 0:
+				store = []*sim.Cert{old, cur}
+			case 1:
+				store = []*sim.Cert{cur, future}
+			case 2:
+				store = []*sim.Cert{old, cur, future}
+			default:
+				store = []*sim.Cert{future, cur, old}
+			}
+			storeSize = len(store)
+			signCert, signKey, inStore = cur, cur.Key, true
+			mixedNoKI = r.IntN(2) == 0
 		case "twin-member":
 			// store members of different keys that share subject and serial number: each must vouch for itself only
 			store = nil
@@ -101,10 +123,11 @@ func runC02(c *mon.Ctx) {
 			}
 			signKey = signCert.Key
 		}
-		spec := randSigSpec(r, signCert, true, sg == "no-keyinfo")
+		spec := randSigSpec(r, signCert, true, sg == "no-keyinfo" || mixedNoKI)
 		spec.Key = signKey
+		spec.NSCharRef = r.IntN(5) == 0 // the XML-DSig namespace URI spelled with a character reference
 		honour := inStore && signKey == signCert.Key && clk.inside && tamper == "none" && sg != "same-key-other-cert" && sg != "untrusted"
-		if sg == "no-keyinfo" {
+		if sg == "no-keyinfo" || mixedNoKI {
 			honour = honour && storeSize == 1
 		}
 		if sg == "foreign-key" {
@@ -196,7 +219,7 @@ func runC02(c *mon.Ctx) {
 			}
 			doc = sim.DocString(d)
 		}
-		cs.Desc("kind=%s signer=%s clock=%s tamper=%s store=%d inStore=%v spec=%s dsOnRoot=%v", kind, sg, clk.name, tamper, storeSize, inStore, spec, spec.NoNSDecl)
+		cs.Desc("kind=%s signer=%s clock=%s tamper=%s store=%d inStore=%v spec=%s dsOnRoot=%v nsCharRef=%v", kind, sg, clk.name, tamper, storeSize, inStore, spec, spec.NoNSDecl, spec.NSCharRef)
 		cs.Input([]byte(doc))
 		sp, spy, _ := NewSP(now, store...)
 		spy.WantStacks = true
